@@ -832,7 +832,8 @@ class NestedExtensionArray(ExtensionArray):
     def list_lengths(self) -> np.ndarray:
         """Lengths of the list arrays"""
         list_lengths = pa.compute.list_value_length(self._list_array)
-        return np.asarray(list_lengths)
+        # Missing rows have no elements
+        return np.asarray(pa.compute.fill_null(list_lengths, 0))
 
     @property
     def flat_length(self) -> int:
